@@ -17,11 +17,14 @@ func (db *DB) NewIterator(opts IteratorOptions) *Iterator {
 	db.mu.RLock()
 	indexIter := db.index.Iterator(opts.Reverse)
 	db.mu.RUnlock()
-	return &Iterator{
+	it := &Iterator{
 		db:        db,
 		indexIter: indexIter,
 		options:   opts,
 	}
+	// 新建的迭代器无需 Rewind 即可使用, 须与 Rewind 之后一样停在首个满足前缀条件的元素上
+	it.skipToNext()
+	return it
 }
 
 // Rewind 迭代器重置回到起点
